@@ -105,6 +105,7 @@ def run_selftest(pid, work):
     corpus = json.load(open(corpus_p))
     names = [n for n, d in corpus['mutants'].items() if pid in d.get('props', [])]
     names += list(corpus['refactors'].keys())
+    names.append('ext:*')   # plus the independently written refactorings of selftest/refactors_ext
     out_json = os.path.join(work, 'selftest.json')
     p = subprocess.run([sys.executable, os.path.join(VERIF, 'selftest', 'run.py'), '--jobs', '12', '--only', ','.join(names), '--json', out_json, '--workroot', work],
                        capture_output=True, text=True)
